@@ -146,6 +146,9 @@ func runNested(g, pc int, ops *js.Object) {
 	for j := 0; j < n; j++ {
 		sub := (pc+1)*100 + j
 		logOp(g, sub, "inv", nil)
+		if ops.Index(j).Get("k").String() == "boom" {
+			panic("boom") // the user callback panics: not recovered here, it propagates through Do / Range / Get
+		}
 		res := doOp(g, sub, ops.Index(j))
 		logOp(g, sub, "ret", res)
 	}
